@@ -117,7 +117,11 @@ CHECKS = {
          "replaced only under the policy in force, only matching members are touched, missing parents appear with 0755. The "
          "library's own extraction (lha_reader_extract with header paths) is run under each of its three directory policies and "
          "the resulting tree compared with TreeModel (PLAIN: time stamps of directories that receive children excepted). The "
-         "print command's stdout (banner + exactly the selected members' bytes) is compared with Cli.tla.",
+         "print command's stdout (banner + exactly the selected members' bytes) is compared with Cli.tla. MacBinary.tla defines "
+         "when an envelope is recognised and what is then handed out; single-member MacLHA archives that vary every field of the "
+         "envelope (zero fields, name field and padding, fork lengths incl. sums wrapping modulo 2^32, stamps at +-14 h, Mac "
+         "dates before 1970, resource-fork-only, 128-byte members, streams shorter than announced) are run through lha p / t / x and "
+         "bytes, verdict and file size must be MacBinary!Outer's.",
     design_ref="DESIGN.md section 5, C06",
     note="Owner ids, link time stamps and stamp-0 entries are outside the statement. umask 022, TZ=UTC. The expectation comes from the "
          "generator (a declarative description of the tree) or from TreeModel.tla, the model tree from replaying the observed calls. "
